@@ -21,7 +21,11 @@ use serde::de::{DeserializeSeed, MapAccess, SeqAccess};
 
 use super::{Config, SchemaAwareDeserializer};
 use crate::schema::MapSchema;
-use crate::{Error, Schema, schema::ArraySchema, util::zag_i64};
+use crate::{
+    Error, Schema,
+    schema::ArraySchema,
+    util::{safe_len, zag_i64},
+};
 
 /// Deserialize sequences from an Avro array.
 pub struct BlockDeserializer<'s, 'r, R: Read, S: Borrow<Schema>> {
@@ -81,7 +85,11 @@ impl<'s, 'r, R: Read, S: Borrow<Schema>> BlockDeserializer<'s, 'r, R, S> {
             // If the block size is zero the array/map is finished
             Ok(None)
         } else {
-            Ok(Some(remaining.unsigned_abs()))
+            let count = remaining.unsigned_abs();
+            // The declared count drives the iteration (items may be zero bytes wide), so bound it
+            // by the allocation limit like the generic decoder does before reserving.
+            safe_len(usize::try_from(count).unwrap_or(usize::MAX))?;
+            Ok(Some(count))
         }
     }
 }
